@@ -17,42 +17,160 @@ FORMS = ['selfclose', 'empty', 'blank']
 # ---------------------------------------------------------------- generators
 
 def gen_inputs(rng, nind):
-    """inputs of a primitive with stride nind: exactly one VERTEX, at most one NORMAL, up to two
-    TEXCOORD sets, sometimes a COLOR; offsets arbitrary (shared offsets happen), the largest is nind-1;
-    document order arbitrary"""
+    """inputs of a primitive with stride nind: exactly one VERTEX, up to two NORMAL, up to three
+    TEXCOORD inputs, sometimes a COLOR; offsets arbitrary (shared offsets happen), the largest is
+    nind-1; document order arbitrary; the set numbers of the TEXCOORD (and NORMAL) inputs are
+    arbitrary too: ascending, descending, with gaps, repeated or absent"""
     sems = ['VERTEX']
-    if rng.random() < 0.6:
+    r = rng.random()
+    if r < 0.6:
         sems.append('NORMAL')
-    sems += ['TEXCOORD'] * rng.choice([0, 0, 1, 1, 2])
-    if rng.random() < 0.25:
+        if r < 0.1:
+            sems.append('NORMAL')
+    sems += ['TEXCOORD'] * rng.choice([0, 0, 1, 1, 2, 2, 3])
+    if rng.random() < 0.2:
         sems.append('COLOR')
     while len(sems) < nind and rng.random() < 0.7:
         # wide strides usually come with as many inputs
         if 'NORMAL' not in sems:
             sems.append('NORMAL')
-        elif sems.count('TEXCOORD') < 2:
+        elif sems.count('TEXCOORD') < 3:
             sems.append('TEXCOORD')
+        elif 'COLOR' not in sems:
+            sems.append('COLOR')
         else:
-            sems.append('COLOR') if 'COLOR' not in sems else None
             break
     rng.shuffle(sems)
     offs = [rng.randrange(nind) for _ in sems]
-    if rng.random() < 0.5 and len(sems) >= nind:
+    if rng.random() < 0.6 and len(sems) >= nind:
         perm = list(range(nind)) + [rng.randrange(nind) for _ in range(len(sems) - nind)]
         rng.shuffle(perm)
         offs = perm
     offs[rng.randrange(len(offs))] = nind - 1
-    if max(offs) != nind - 1:
-        offs[offs.index(max(offs))] = nind - 1
+    ntex = sems.count('TEXCOORD')
+    style = rng.random()
+    if style < 0.3:
+        tsets = list(range(ntex))                       # ascending in listing order
+    elif style < 0.6:
+        tsets = list(range(ntex))
+        rng.shuffle(tsets)                              # a permutation: set 1 listed before set 0 ...
+    elif style < 0.8:
+        tsets = rng.sample(range(0, 8), ntex)           # gaps, any order
+    elif style < 0.9:
+        tsets = [rng.choice([0, 1]) for _ in range(ntex)]   # repeated numbers
+    else:
+        tsets = [rng.choice([None, 0, 1, 2]) for _ in range(ntex)]
     inputs = []
-    tset = 0
-    for s, o in zip(sems, offs):
+    ti = 0
+    for s_, o in zip(sems, offs):
         st = None
-        if s == 'TEXCOORD':
-            st = tset
-            tset += 1
-        inputs.append([s, o, st])
+        if s_ == 'TEXCOORD':
+            st = tsets[ti]
+            ti += 1
+        elif s_ == 'NORMAL' and rng.random() < 0.2:
+            st = rng.choice([0, 1, 2])
+        inputs.append([s_, o, st])
     return inputs
+
+
+# ---- source data: every value is a small multiple of 1/4 (exact in float32) or +-inf
+
+def outline(rng, n, dents=None):
+    """n points of a closed outline in the plane: a strictly convex polygon (points of a parabola), in
+    either orientation, started at any corner, with some corners pushed across the chord of their
+    neighbours (reflex corners, darts, self-intersections), or collinear / partly coincident"""
+    if n == 0:
+        return []
+    r = rng.random()
+    if dents is None and r < 0.1:
+        pts = [(float(i), 0.0) for i in range(n)]                     # collinear
+    elif dents is None and r < 0.2:
+        base = [(float(rng.randint(-2, 2)), float(rng.randint(-2, 2))) for _ in range(2)]
+        pts = [rng.choice(base) for _ in range(n)]                       # coincident points
+    else:
+        pts = [(4.0 * i, 4.0 * i * i) for i in range(n)]
+        if dents is None:
+            dents = [i for i in range(n) if rng.random() < (0.5 if n <= 5 else 0.25)]
+        if n >= 4:
+            new = list(pts)
+            for i in dents:
+                a, b, p_ = pts[(i - 1) % n], pts[(i + 1) % n], pts[i]
+                m = ((a[0] + b[0]) / 2, (a[1] + b[1]) / 2)
+                new[i] = (m[0] + (m[0] - p_[0]) / 2, m[1] + (m[1] - p_[1]) / 2)
+            pts = new
+        if rng.random() < 0.5:
+            pts = pts[::-1]
+        k = rng.randrange(n)
+        pts = pts[k:] + pts[:k]
+    return pts
+
+
+def embed(rng, pts):
+    """put planar points into space: one of a few integer planes, with an integer translation"""
+    m = rng.choice([((1, 0), (0, 1), (0, 0)), ((1, 0), (0, 0), (0, 1)), ((0, 0), (1, 0), (0, 1)),
+                    ((1, 0), (0, 1), (1, -1)), ((1, 1), (1, -1), (0, 2))])
+    t = [float(rng.randint(-3, 3)) for _ in range(3)]
+    return [[m[c][0] * x + m[c][1] * y + t[c] for c in range(3)] for x, y in pts]
+
+
+def rand_point(rng, mode):
+    q = lambda lo, hi: rng.randint(4 * lo, 4 * hi) / 4.0   # noqa
+    if mode == 'grid2d':
+        return [float(rng.randint(-3, 3)), float(rng.randint(-3, 3)), 0.0]
+    if mode == 'plane3d':
+        x, y = rng.randint(-3, 3), rng.randint(-3, 3)
+        return [float(x), float(y), float(x + 2 * y)]
+    if mode == 'zero':
+        return [0.0, 0.0, 0.0]
+    return [q(-5, 5), q(-5, 5), q(-5, 5)]
+
+
+POS_MODES = ['line', 'grid2d', 'grid2d', 'plane3d', 'space', 'space', 'few', 'zero', 'inf', 'shaped', 'shaped']
+
+
+def gen_data(rng, nsrc, runs_vertex_labels, mode=None, dents=None):
+    """tables for the sources: positions in one of several modes, normals and texture coordinates
+    mostly distinct per label and per source, sometimes repeated / zero / infinite"""
+    mode = mode or rng.choice(POS_MODES)
+    if mode == 'line':
+        pos = [[float(j), float(2 * j + 1), float(-j)] for j in range(nsrc)]
+    elif mode == 'few':
+        base = [rand_point(rng, 'space') for _ in range(rng.randint(1, 3))]
+        pos = [list(rng.choice(base)) for _ in range(nsrc)]
+    elif mode == 'inf':
+        pos = [rand_point(rng, 'space') for _ in range(nsrc)]
+        for p_ in pos:
+            if rng.random() < 0.3:
+                p_[rng.randrange(3)] = rng.choice([float('inf'), float('-inf'), 0.0])
+    elif mode == 'shaped':
+        pos = [rand_point(rng, 'grid2d') for _ in range(nsrc)]
+        for labels in runs_vertex_labels:
+            pts = embed(rng, outline(rng, len(labels), dents))
+            for lab, pt in zip(labels, pts):
+                pos[lab] = pt
+    else:
+        pos = [rand_point(rng, mode) for _ in range(nsrc)]
+    r = rng.random()
+    nrm = []
+    for i in range(2):
+        if r < 0.6:
+            nrm.append([[j + 0.5 + 100 * i, float(-2 * j), 7.0 + i] for j in range(nsrc)])
+        elif r < 0.85:
+            nrm.append([rand_point(rng, 'space') for _ in range(nsrc)])
+        elif r < 0.95:
+            nrm.append([[0.0, 0.0, 0.0] for _ in range(nsrc)])
+        else:
+            nrm.append([[float('inf'), 0.0, float(j % 2)] for j in range(nsrc)])
+    r = rng.random()
+    tex = []
+    for i in range(3):
+        if r < 0.7:
+            tex.append([[float(j), float(1000 * (i + 1) + j)] for j in range(nsrc)])
+        elif r < 0.9:
+            tex.append([[rng.randint(-8, 8) / 4.0, rng.randint(-8, 8) / 4.0] for _ in range(nsrc)])
+        else:
+            tex.append([[0.5, 0.5] for _ in range(nsrc)])
+    return {'pos_mode': mode, 'pos': pos, 'nrm': nrm, 'tex': tex}
 
 
 LENGTHS = [0, 0, 1, 1, 2, 2, 3, 3, 3, 4, 4, 5, 5, 6, 7, 8, 9, 12]
@@ -71,7 +189,7 @@ def gen_lengths(rng):
     return [rng.choice(LENGTHS) for _ in range(nruns)]
 
 
-def make_case(rng, kind, nind, inputs, lengths, distinct=True, form=None):
+def make_case(rng, kind, nind, inputs, lengths, distinct=True, form=None, pos_mode=None, dents=None):
     total = sum(lengths) * nind
     nsrc = total + rng.randint(1, 4)
     if distinct:
@@ -80,14 +198,19 @@ def make_case(rng, kind, nind, inputs, lengths, distinct=True, form=None):
         labels = [rng.randrange(min(nsrc, 3)) for _ in range(total)]
     case = {'kind': kind, 'nind': nind, 'inputs': inputs, 'nsrc': nsrc, 'distinct': distinct,
             'empty_form': form or rng.choice(FORMS)}
+    ps, pos = [], 0
+    for n in lengths:
+        ps.append(labels[pos:pos + n * nind])
+        pos += n * nind
+    voff = [o for s_, o, _ in inputs if s_ == 'VERTEX'][0]
+    runs_vertex_labels = [p[voff::nind] for p in ps]
+    if not distinct and pos_mode is None:
+        pos_mode = rng.choice([m for m in POS_MODES if m != 'shaped'])
+    case['data'] = gen_data(rng, nsrc, runs_vertex_labels, pos_mode, dents)
     if kind == 'polylist':
         case['vcounts'] = list(lengths)
         case['ps'] = [labels]
     else:
-        ps, pos = [], 0
-        for n in lengths:
-            ps.append(labels[pos:pos + n * nind])
-            pos += n * nind
         case['ps'] = ps
     return case
 
@@ -118,6 +241,25 @@ def boundary_cases(rng):
         for i, v in enumerate(vectors):
             nind = 1 + (i % 4)
             out.append(make_case(rng, kind, nind, gen_inputs(rng, nind), v, form=FORMS[i % 3]))
+    # outlines: every corner in turn is the reflex one (quads, pentagons, hexagons), two reflex corners,
+    # none; for every kind (for strips and fans the runs simply follow such outlines)
+    i = 0
+    for kind in KINDS:
+        for n in (4, 5, 6):
+            shapes = [[r] for r in range(n)] + [[], [0, 2], [1, n - 1]]
+            for d in shapes:
+                nind = 1 + (i % 3)
+                i += 1
+                v = [n] if i % 2 else [3, n, n]
+                out.append(make_case(rng, kind, nind, gen_inputs(rng, nind), v, pos_mode='shaped', dents=d))
+    # several inputs of one semantic listed against their set numbers
+    for kind in KINDS:
+        for sets in ([1, 0], [0, 1], [2, 0, 1], [5, 3], [None, 0], [1, 1]):
+            k = len(sets) + 1
+            inputs = [['VERTEX', 0, None]] + [['TEXCOORD', j + 1, st] for j, st in enumerate(sets)]
+            out.append(make_case(rng, kind, k, inputs, [4, 3, 5]))
+            inputs = [['TEXCOORD', j, st] for j, st in enumerate(sets)] + [['NORMAL', k - 1, None], ['VERTEX', k - 1, None]]
+            out.append(make_case(rng, kind, k, inputs, [5, 4]))
     return out
 
 
@@ -303,6 +445,8 @@ def run(ctx):
     by_kind, by_stride, runlen, nruns, forms = {}, {}, {}, {}, {}
     ntri = 0
     nondistinct = 0
+    pmodes = {}
+    unsorted_sets = 0
     for c, r in zip(cases, results):
         if c['kind'] == 'slice':
             continue
@@ -317,6 +461,10 @@ def run(ctx):
         nondistinct += 0 if c.get('distinct', True) else 1
         t = sum(max(n - 2, 0) for n in lens)
         ntri += t
+        pmodes[c.get('data', {}).get('pos_mode', 'default')] = pmodes.get(c.get('data', {}).get('pos_mode', 'default'), 0) + 1
+        sets = [st for s_, o, st in c['inputs'] if s_ == 'TEXCOORD']
+        if len(sets) >= 2 and sets != sorted(sets, key=lambda x: -1 if x is None else x):
+            unsorted_sets += 1
         if t >= 1:
             seen.add(core.canon_hash([c['kind'], c['nind'], c['inputs'], lens]))
     corr = {
@@ -324,16 +472,18 @@ def run(ctx):
         'distinct_nontrivial': len(seen),
         'rule': 'real COLLADA documents (five sources, <vertices>, one primitive, a scene) loaded by pycollada; '
                 'kinds tristrips/trifans/polylist/polygons in equal shares, 1..9 runs of lengths 0..12 (0, 1, 2 frequent), '
-                'strides 1..4 with 1..5 inputs at arbitrary (also shared) offsets in arbitrary document order, '
+                'strides 1..4 with 1..7 inputs (VERTEX, <=2 NORMAL, <=3 TEXCOORD with arbitrary set numbers, COLOR) at arbitrary (also shared) offsets in arbitrary document order, '
+                'source data varied per case (collinear, planar grid, tilted plane, space, few coincident points, all zero, infinities, outlines with reflex corners / self-intersections), '
                 'pairwise distinct labels in 85 % of the cases; non-trivial = at least one triangle expected; '
                 'distinct = different (kind, stride, inputs, length vector); plus a fixed list of boundary shapes '
                 '(empty / one / two in first, middle, last position, three spellings of an empty <p>) and '
                 'runtime slices list(range(n))[a:b:s]; thorough adds every length vector of <= 3 runs with lengths 0..9 for every kind',
-        'samples': [{'input': c, 'observed': {k: v for k, v in r.items() if k != 'fails'}}
+        'samples': [{'input': dict(c, data={'pos_mode': c.get('data', {}).get('pos_mode')}), 'observed': {k: v for k, v in r.items() if k != 'fails'}}
                     for c, r in list(zip(cases, results))[ncorpus + len(bnd):ncorpus + len(bnd) + 3]],
         'distribution': {'by_kind': by_kind, 'by_stride': by_stride, 'runs_per_primitive': nruns,
                          'run_length_histogram': runlen, 'empty_p_spelling': forms, 'triangles_expected': ntri,
-                         'cases_with_repeated_labels': nondistinct, 'runtime_slice_cases': nslice,
+                         'cases_with_repeated_labels': nondistinct, 'position_data_mode': pmodes,
+                         'cases_with_texcoord_sets_listed_out_of_order': unsorted_sets, 'runtime_slice_cases': nslice,
                          'boundary_cases': len(bnd), 'corpus_cases': ncorpus, 'exhaustive_slice_cases': nexh},
         'mismatches': mismatches,
         'errors': errors,
